@@ -23,7 +23,13 @@
      or above the marks).  [R2 cs di s s'] = [sealed] + code / debug map / dictionary below the
      marks unchanged up to [rpatch] / [cpatch] + the invariant again.
    - [tstep f s s']: build1 processes one token (runs pending code in meta mode, reads the token,
-     acts on it).  [anystep] = some f.  [bpath d s x]: x is reached from s by token steps that
+     acts on it) THAT IS NOT A WORD OF THE ENUM BUILDER ([enum_tok] = false: `enum`, `endenum` and
+     the two field words `:` / `=` of an open enum perform two context operations at once -
+     open+open, close+open, close+close - so the classification "same context / opens a block /
+     closes the block" of a token step does not apply to them; witness C11_enum_step_not_classified
+     in Props/C11_enum.v).  [enum_free fuel s]: no token that build1 reads from s on is such a
+     word; it is the hypothesis under which a successful build is a chain of token steps.
+     `enum ... endenum` as a whole is characterised in Props/C11_enum.v.  [anystep] = some f.  [bpath d s x]: x is reached from s by token steps that
      never go below context depth d.  [seg s x]: such a sequence with balanced nested blocks.
    - [Pre5 s] / [R5 s s']: the same for a context that is NOT a meta context, with no
      user-defined immediate word in the dictionary: data stack, context, context stack unchanged,
@@ -106,7 +112,8 @@ Theorem C11_steps_sealed : forall fo n s s', mpre s -> steps (native_fn fo) n s 
 Proof. exact steps_sealed. Qed.
 Check C11_steps_sealed : forall fo n s s', mpre s -> steps (native_fn fo) n s = Some s' -> sealed s s'.
 
-(* the builder: every immediate word of the table except #( #) ~) , and user-defined immediate
+(* the builder: every immediate word of the table except the context words #( #) ~) and the four
+   words of the enum builder ([ctx_word]), and user-defined immediate
    words (interpreted), and the run of pending code *)
 Theorem C11_immediate_word_sealed : forall fo pr rf fuel name w,
   immediate_fn fo pr rf fuel name = Some w -> ctx_word name = false ->
@@ -220,7 +227,7 @@ Theorem C11_close_from_invariant : forall fo rf cs di s prev rest,
   Pre2 cs di s -> nested s = prev :: rest ->
   match run_m fo rf (set_nested s rest) with
   | ROk _ s1 => context_close fo rf s = ROk tt (close_state s1 prev) /\ R2 cs di (set_nested s rest) s1
-  | RErr k p s1 => context_close fo rf s = RErr k p s1
+  | RErr k p s1 => context_close fo rf s = RErr k p (set_nested s1 (prev :: rest))
   | RPanic => context_close fo rf s = RPanic
   | RUnsup => context_close fo rf s = RUnsup
   end.
@@ -229,7 +236,7 @@ Check C11_close_from_invariant : forall fo rf cs di s prev rest,
   Pre2 cs di s -> nested s = prev :: rest ->
   match run_m fo rf (set_nested s rest) with
   | ROk _ s1 => context_close fo rf s = ROk tt (close_state s1 prev) /\ R2 cs di (set_nested s rest) s1
-  | RErr k p s1 => context_close fo rf s = RErr k p s1
+  | RErr k p s1 => context_close fo rf s = RErr k p (set_nested s1 (prev :: rest))
   | RPanic => context_close fo rf s = RPanic
   | RUnsup => context_close fo rf s = RUnsup
   end.
@@ -268,11 +275,11 @@ Check C11_close_state : forall s1 prev,
 (* ================= token steps ================= *)
 
 (* a successful build is a chain of token steps ended by the end of the input *)
-Theorem C11_build1_path : forall fo pr rf f d s s', build1 fo pr rf f d s = ROk tt s' ->
+Theorem C11_build1_path : forall fo pr rf f d s s', enum_free fo pr rf f s -> build1 fo pr rf f d s = ROk tt s' ->
   exists x s1, bpath fo pr rf 0 s x /\ pre_run fo rf x = ROk tt s1 /\ get_token pr s1 = ROk BEnd s' /\
                depth s' = d /\ has_pending_flow s' = false.
 Proof. exact build1_path. Qed.
-Check C11_build1_path : forall fo pr rf f d s s', build1 fo pr rf f d s = ROk tt s' ->
+Check C11_build1_path : forall fo pr rf f d s s', enum_free fo pr rf f s -> build1 fo pr rf f d s = ROk tt s' ->
   exists x s1, bpath fo pr rf 0 s x /\ pre_run fo rf x = ROk tt s1 /\ get_token pr s1 = ROk BEnd s' /\
                depth s' = d /\ has_pending_flow s' = false.
 
@@ -470,6 +477,7 @@ Check C11_block_outside_meta : forall a w1, Pre5 a ->
    word `immediate` at its top level (outside meta blocks) *)
 Theorem C11_compile_quiet : forall fo pr rf fuel src s s',
   wfm s -> cd_inv s -> no_user_imm (dict s) ->
+  enum_free fo pr rf fuel (interned src (copened s)) ->
   compile fo pr rf fuel src s = ROk tt s' ->
   (ds s' = ds s /\ exists k, heap s' = heap s ++ repeat CNil k) \/
   (exists y z, bpath fo pr rf 0 (interned src (copened s)) y /\ depth y = S (depth s) /\
@@ -477,6 +485,7 @@ Theorem C11_compile_quiet : forall fo pr rf fuel src s s',
 Proof. exact compile_quiet. Qed.
 Check C11_compile_quiet : forall fo pr rf fuel src s s',
   wfm s -> cd_inv s -> no_user_imm (dict s) ->
+  enum_free fo pr rf fuel (interned src (copened s)) ->
   compile fo pr rf fuel src s = ROk tt s' ->
   (ds s' = ds s /\ exists k, heap s' = heap s ++ repeat CNil k) \/
   (exists y z, bpath fo pr rf 0 (interned src (copened s)) y /\ depth y = S (depth s) /\
@@ -485,6 +494,7 @@ Check C11_compile_quiet : forall fo pr rf fuel src s s',
 (* the build phase of eval or compile (any non-meta mode m) executes nothing outside meta blocks *)
 Theorem C11_build_quiet : forall fo pr rf m fuel src s s2,
   m <> MMeta -> wfm s -> cd_inv s -> no_user_imm (dict s) ->
+  enum_free fo pr rf fuel (interned src (mopened m s)) ->
   build1 fo pr rf fuel (S (depth s)) (interned src (mopened m s)) = ROk tt s2 ->
   R5 (interned src (mopened m s)) s2 \/
   (exists y z, bpath fo pr rf 0 (interned src (mopened m s)) y /\ depth y = S (depth s) /\
@@ -492,6 +502,7 @@ Theorem C11_build_quiet : forall fo pr rf m fuel src s s2,
 Proof. exact build_quiet. Qed.
 Check C11_build_quiet : forall fo pr rf m fuel src s s2,
   m <> MMeta -> wfm s -> cd_inv s -> no_user_imm (dict s) ->
+  enum_free fo pr rf fuel (interned src (mopened m s)) ->
   build1 fo pr rf fuel (S (depth s)) (interned src (mopened m s)) = ROk tt s2 ->
   R5 (interned src (mopened m s)) s2 \/
   (exists y z, bpath fo pr rf 0 (interned src (mopened m s)) y /\ depth y = S (depth s) /\
@@ -501,6 +512,7 @@ Check C11_build_quiet : forall fo pr rf m fuel src s s2,
    with the instruction pointer moved.  (The literal equation with compile ;; run is not proved.) *)
 Theorem C11_eval_phases : forall fo pr rf fuel src s s',
   wfm s -> cd_inv s -> no_user_imm (dict s) ->
+  enum_free fo pr rf fuel (interned src (mopened MEval s)) ->
   eval fo pr rf fuel src s = ROk tt s' ->
   (exists s2 s3,
      build1 fo pr rf fuel (S (depth s)) (interned src (mopened MEval s)) = ROk tt s2 /\
@@ -512,6 +524,7 @@ Theorem C11_eval_phases : forall fo pr rf fuel src s s',
 Proof. exact eval_phases. Qed.
 Check C11_eval_phases : forall fo pr rf fuel src s s',
   wfm s -> cd_inv s -> no_user_imm (dict s) ->
+  enum_free fo pr rf fuel (interned src (mopened MEval s)) ->
   eval fo pr rf fuel src s = ROk tt s' ->
   (exists s2 s3,
      build1 fo pr rf fuel (S (depth s)) (interned src (mopened MEval s)) = ROk tt s2 /\
